@@ -65,7 +65,7 @@ fn style_class(s: &Style) -> String {
                 _ => "mid",
             },
             prelude & 7,
-            if prelude & 8 != 0 { "|in-pieces" } else { "" }
+            if prelude & 16 != 0 { "|in-many-pieces" } else if prelude & 8 != 0 { "|in-pieces" } else { "" }
         ),
         Style::PartialThenQuicClose { partial, what, .. } => format!("partial-frame-then-quic-close|{what}|{}B", partial.len()),
         Style::Fin => "fin".into(),
@@ -109,7 +109,24 @@ async fn terminate(live: &mut Live, style: &Style) -> Result<(), String> {
         Style::Capsule { code, reason, prelude } => {
             let bytes = capsule_bytes(*code, reason, *prelude);
             let mut s = live.sess_send.take().ok_or("session stream taken")?;
-            if prelude & 8 != 0 {
+            if prelude & 16 != 0 {
+                // many small pieces, each followed at once (no pause) by an unrelated connection
+                // event: the next piece is usually already readable when the interrupted read resumes
+                let cuts: Vec<usize> = (1..bytes.len()).step_by(23).collect();
+                for (i, w) in cuts.windows(2).enumerate() {
+                    let _ = (i, w);
+                }
+                let mut last = 0usize;
+                for (i, &c) in cuts.iter().enumerate() {
+                    s.write_all(&bytes[last..c]).await.map_err(|e| e.to_string())?;
+                    last = c;
+                    scen::fire(&live.peer, if i % 2 == 0 { scen::Event::GreaseUni } else { scen::Event::DatagramForeign }, live.sid, i as u64).await?;
+                    if i % 3 == 0 {
+                        tokio::task::yield_now().await;
+                    }
+                }
+                s.write_all(&bytes[last..]).await.map_err(|e| e.to_string())?;
+            } else if prelude & 8 != 0 {
                 // the capsule arrives in three pieces with an unrelated connection event (a GREASE
                 // unidirectional stream, invisible to the application) after each of the first two
                 let n = bytes.len();
@@ -125,7 +142,19 @@ async fn terminate(live: &mut Live, style: &Style) -> Result<(), String> {
             s.finish().map_err(|e| e.to_string())?;
             live.peer.keep_s(s);
         }
-        Style::QuicClose { code, reason } => live.peer.close(*code, reason),
+        Style::QuicClose { code, reason } => {
+            // peers that run a full HTTP/3 stack have QPACK encoder/decoder streams open when they
+            // close; their loss is part of the connection's end, not a closed critical stream
+            if code % 2 == 0 {
+                for ty in [h3::STREAM_QPACK_ENCODER, h3::STREAM_QPACK_DECODER] {
+                    if let Ok(s) = live.peer.open_uni(&rv::enc(ty)).await {
+                        live.peer.keep_s(s);
+                    }
+                }
+                tokio::time::sleep(ms(30)).await;
+            }
+            live.peer.close(*code, reason)
+        }
         Style::Reset { code } => {
             let mut s = live.sess_send.take().ok_or("session stream taken")?;
             s.reset(quinn::VarInt::from_u64(*code).unwrap()).map_err(|e| e.to_string())?;
@@ -398,6 +427,9 @@ pub fn run(args: &Args) -> Report {
     }
     for (i, c) in codes32.iter().enumerate().take(4) {
         styles.push(Style::Capsule { code: *c, reason: reasons[(i + 2) % reasons.len()].clone(), prelude: 8 | (i as u8 % 8) });
+    }
+    for i in 0..(if args.thorough { 12 } else { 4 }) {
+        styles.push(Style::Capsule { code: 0x0C04_0000 + i as u32, reason: reasons[3 + i % 2].clone(), prelude: 16 | (i as u8 % 2) });
     }
     let whole = h3::frame(h3::FRAME_DATA, &capsule::close(5, b"never completed"));
     let partials: Vec<(Vec<u8>, &'static str)> = vec![
